@@ -50,7 +50,7 @@ func checkC04(c C04Case) (o Outcome) {
 	}
 	single := nDamage == 1 && !verdict.OK
 	o.NonTrivial = verdict.SameDay || single
-	cmds := [][]string{{"check", "j.knut"}, {"print", "j.knut"}, {"balance", "--color=false", "j.knut"}}
+	cmds := [][]string{{"check", "j.knut"}, {"print", "j.knut"}, {"balance", "--color=false", "j.knut"}, {"check", "--write", "j.knut"}}
 	for i, args := range cmds {
 		r := knutio.Run(knutio.Opts{Dir: dir}, args...)
 		o.Evals++
